@@ -77,3 +77,17 @@ Definition example_state : state :=
 Definition script_add_conn_broken : list instr :=
   [ Acq mu_manager; Acq mu_cluster; Acq mu_cluster; Rel mu_cluster; Acq mu_gossip; Rel mu_gossip;
     Rel mu_cluster; Rel mu_manager ].
+
+(* ---- what the atomicity argument (Conc/Atomic.v) needs of the code: AddConn and RemoveConn tell the cluster state AND
+   publish to gossip while they still hold the manager's mutex. The extractor lists, per function, which mutex is acquired
+   (by the function or by anything it calls) while which mutex is held: generated/LockEdges.v lock_holders. *)
+Definition holder := (string * string * string)%type.
+Definition fn_add_conn : string := "(^server/upstream.LoadBalancedManager).AddConn".
+Definition fn_remove_conn : string := "(^server/upstream.LoadBalancedManager).RemoveConn".
+Definition required_holders : list holder :=
+  [ (fn_add_conn, mu_manager, mu_cluster); (fn_add_conn, mu_manager, mu_gossip);
+    (fn_remove_conn, mu_manager, mu_cluster); (fn_remove_conn, mu_manager, mu_gossip) ].
+Definition holder_eqb (a b : holder) : bool :=
+  let '(f1, h1, t1) := a in let '(f2, h2, t2) := b in String.eqb f1 f2 && String.eqb h1 h2 && String.eqb t1 t2.
+Definition holders_present (hs : list holder) : bool :=
+  forallb (fun r => existsb (holder_eqb r) hs) required_holders.
